@@ -65,7 +65,7 @@ func refOfS[T any](ch chan<- T) chanRef {
 // pendingPartner finds another parked thread that could complete an operation
 // on channel p in the opposite direction (wantSend: we look for a sender).
 func (r *run) partners(p unsafe.Pointer, wantSend bool, self *Thread, out []*Thread) []*Thread {
-	for _, u := range r.threads {
+	for _, u := range r.active {
 		if u == self || u.state != stPending || u.completed {
 			continue
 		}
